@@ -105,6 +105,10 @@ func setupRoutes(module *ast.Module, filePath string, forceInterpreter ...bool) 
 		useCompiler = false
 	}
 	compiledRoutes = make(map[string][]byte)
+	// Bytecode per declaration. The path alone does not identify a route: the same
+	// pattern may be declared under several methods (or twice), and looking the
+	// bytecode up by path made every such route run the last one compiled.
+	compiledByRoute := make(map[*ast.Route][]byte)
 
 	// Any provider injection forces interpreter mode: the VM cannot execute
 	// provider method calls, so a compiled route fails at request time with
@@ -152,6 +156,7 @@ func setupRoutes(module *ast.Module, filePath string, forceInterpreter ...bool) 
 					break
 				}
 				compiledRoutes[route.Path] = bytecode
+				compiledByRoute[route] = bytecode
 			}
 		}
 	}
@@ -171,7 +176,7 @@ func setupRoutes(module *ast.Module, filePath string, forceInterpreter ...bool) 
 	if useCompiler {
 		for _, item := range module.Items {
 			if route, ok := item.(*ast.Route); ok {
-				bytecode := compiledRoutes[route.Path]
+				bytecode := compiledByRoute[route]
 				regErr := registerCompiledRoute(router, route, bytecode, wsServer.GetHub())
 				if regErr != nil {
 					printWarning(fmt.Sprintf("Failed to register route %s: %v", route.Path, regErr))
